@@ -175,3 +175,17 @@ func TestReplayPeerMultiLocalLeak(t *testing.T) {
 	runPeerMulti(t, pools.V4Net{CIDR: "10.0.0.0/28", Gateway: "10.0.0.1", Class: "replay"}, 1,
 		[]pmOp{{K: pmMark, S: 0, On: false}, {K: pmAlloc, S: i}, {K: pmMark, S: 0, On: true}, {K: pmRelease, S: i, C: 0}}, false)
 }
+
+// KF-C05-16: lease mode, a re-ask whose store write fails (here: caller context already cancelled) still refreshes
+// the lease in memory while the stored record keeps its old epoch; two such re-asks in consecutive epochs and the
+// store clean-up deletes the record of a lease that is live in memory: Renew then fails with "key not found".
+func TestReplayLeaseRefreshedInMemoryOnly(t *testing.T) {
+	msg := inBubble(t, func(ft fataler) {
+		f := pools.DistFactory("10.0.0.0/30", 32, true, 0, false, "replay", synctest.Wait)
+		ops := []pools.Op{{K: 0, S: 5}, {K: 3}, {K: 0, S: 5, P: 0x60}, {K: 3}, {K: 0, S: 5, P: 0x60}, {K: 3}, {K: 2, S: 0, V: 1}}
+		runHistory(ft, f, ops, runOpt{checkStats: true, ctx: true, honourCtx: true})
+	})
+	if msg != "" {
+		t.Fatalf("%s", msg)
+	}
+}
